@@ -324,6 +324,8 @@ func checkC08(c *Ctx) {
 	ruleD9v(c, map[string]bool{"pubsub": true}, 3)
 	ruleG1(c, map[string]bool{"pubsub": true}, 3)
 	ruleB1(c, map[string]bool{"pubsub": true}, 30)
+	// the subscriber set is read through adt.Map's iterators, once per message
+	ruleP1(c, map[string]bool{"adt": true}, 1)
 }
 
 func checkC09(c *Ctx) {
